@@ -38,7 +38,7 @@ manifest = {
         "name": "symgo",
         "path": "symgo/",
         "serves_properties": [c["property_id"] for c in checks],
-        "kind_free_text": "bounded symbolic executor for Go SSA (go/ssa v0.29.0) of /repo's current source: symbolic scalars as SMT bit-vector/float terms, concrete heap, interpreter-level model of package reflect, path forking by stateless re-execution, obligations discharged by z3 5.1.0 over a pipe; every sat answer is replayed natively (go test -overlay) before it is reported",
+        "kind_free_text": "bounded symbolic executor for Go SSA (go/ssa v0.29.0) of /repo's current source: symbolic scalars as SMT bit-vector/float terms, concrete heap, interpreter-level model of package reflect, path forking by stateless re-execution, obligations discharged by z3 5.1.0 over a pipe; every sat answer is replayed natively (go test -overlay) before it is reported; a spread of passing paths is re-run natively with the solver's model of their inputs as a cross-check of the encoding",
     }],
     "checks": checks,
     "not_applicable": na,
